@@ -61,6 +61,7 @@ type CallAssert struct {
 	File     string
 	Off      int
 	Before  bool
+	Dead    bool // the anchor (call, return or if ordinal) no longer exists in the source
 	Assume  bool // 'assume after call ...': an unchecked assumption, listed in the evidence
 	Ordinal int
 	Callee  string
